@@ -38,7 +38,7 @@ class C05(Prop):
     shard = 40
     rule = ("exhaustive grid n_samples 1..N x batch_size in 1..N+2, 'full', None (N=6 gaussian, 4 poisson/variance, 3 excitation in the quick tier; "
             "8/6/4 thorough) on seeded well-scaled systems with finite bounds, baseline and per-sample weights, rows mixed in- and out-of-gamut and "
-            "pairwise distinct; half of the variance systems with a requested total intensity (L1) per row; W='inverse' systems with one target 4096 times brighter than the others; every run is compared with the batch_size=1 run (predicted captures) and its hook records (batch index, padded?, rows "
+            "pairwise distinct (excitation, n = 3: all rows in gamut, where the batch-wide maximum of D14 does not couple them); half of the variance systems with a requested total intensity (L1) per row; W='inverse' systems with one target 4096 times brighter than the others; every run is compared with the batch_size=1 run (predicted captures) and its hook records (batch index, padded?, rows "
             "written, stacked targets and weights handed to the solver) with the Coq plan. non-trivial = batch_size >= 2 and n >= 2 (padded or multi-row batch)")
     assumptions = ["solver opaque; 'same predicted captures' is asserted to 2e-3 capture units (gaussian/poisson/variance with tight CLARABEL settings) and 2e-2 (excitation, SCS bisection)",
                    "hook `solve` in lsq_linear._solve_problem / lsq_linear_minimize copies (idx, padded, rows, w_, b_) after each solve"]
@@ -76,7 +76,7 @@ class C05(Prop):
                         sys["baseline"] = 1.0; sys["bkind"] = "scalar"
                     rows, kinds = [], []
                     for r in range(n):
-                        got = gs.gen_target_regime(rng, sys, rng.choice(["inside", "outside", "face", "far"]))
+                        got = gs.gen_target_regime(rng, sys, ("inside" if (proc == "excitation" and n == 3) else rng.choice(["inside", "outside", "face", "far"])))
                         if got is None:
                             break
                         rows.append(got[1].tolist()); kinds.append(got[0])
@@ -215,7 +215,8 @@ class C05(Prop):
         if d.max() > tol:
             i = int(np.argmax(d.max(axis=1)))
             return {"what": "%s n=%d batch_size=%r: predicted capture of row %d differs from the batch_size=1 result by %.3g (> %g)" % (
-                case["proc"], case["n"], case["bs"], i, d.max(), tol), "class": "batch-dependence:%s:%s" % (case["proc"], ck)}
+                case["proc"], case["n"], case["bs"], i, d.max(), tol),
+                "class": "batch-dependence%s:%s:%s" % ("-ingamut" if all(k in ("inside", "face") for k in case["tk"]) else "", case["proc"], ck)}
         return None
 
     def nontrivial(self, case, out):
